@@ -1,0 +1,14 @@
+//go:build verif
+
+package routing
+
+import "github.com/dtn7/dtn7-go/pkg/bpv7"
+
+// Hook for the out-of-tree verification harness (build tag verif), add-only.
+
+// VerifIdKeeperUpdate calls the IdKeeper's update for the given bundle, as SendBundle does, and
+// returns the sequence number that was written into the bundle.
+func (c *Core) VerifIdKeeperUpdate(b *bpv7.Bundle) uint64 {
+	c.idKeeper.update(b)
+	return b.PrimaryBlock.CreationTimestamp[1]
+}
